@@ -839,3 +839,35 @@ def r26(text, ctx):
         return 'world.io_copy('
     out = re.sub(r'\b(?:std::)?io::copy\s*\(', sub, text)
     return out, n
+
+
+@rule('R16', 'lambda lifting of the immediately-invoked closure `|| -> T { B }()` into a sibling method whose parameters are the captured variables '
+             '(ruleargs `R16 sig <fn signature>`, `R16 call <call expr>`, `R16 deref <ident>`); Verus does not accept closures capturing `world`/`&mut`')
+def r16(text, ctx):
+    if '\x00' not in text:
+        return text, 0
+    args = ctx.rule_args.get('R16', [])
+    sigs = [a[4:].strip() for a in args if a.startswith('sig ')]
+    calls = [a[5:].strip() for a in args if a.startswith('call ')]
+    derefs = [a[6:].strip() for a in args if a.startswith('deref ')]
+    if not sigs:
+        return text, 0
+    sig, body = text.split('\x00')
+    toks = lex(body)
+    for i, t in enumerate(toks):
+        if t.kind == 'punct' and t.text == '||' and toks[i + 1].text == '->':
+            j = i + 2
+            while toks[j].text != '{':
+                j += 1
+            be = match_close(toks, j)
+            if not (toks[be + 1].text == '(' and toks[be + 2].text == ')'):
+                continue
+            cbody = body[toks[j].start:toks[be].end]
+            for d in derefs:
+                ct = lex(cbody)
+                cbody = toks_replace(cbody, [(x.start, x.end, '(*%s)' % d) for x in ct if x.kind == 'ident' and x.text == d])
+            lname = re.search(r'fn\s+([A-Za-z0-9_]+)', sigs[0]).group(1)
+            ctx.lifted[lname] = (sigs[0], cbody)
+            body = body[:t.start] + calls[0] + body[toks[be + 2].end:]
+            return sig + '\x00' + body, 1
+    return text, 0
